@@ -93,6 +93,19 @@ CHECKS = {
         design="DESIGN.md 5 (C10)",
         technique="TLA+ spec + TLC exhaustive; spec->code replay of every evaluated state",
     ),
+    "C12": dict(
+        engine="tla-sensing",
+        text="Sensing.tla decides point-in-scaled-rotated-box exactly on a lattice (Pythagorean headings, rational scales, integer cross products "
+        "for polygonal prisms) and classifies objects (warning / detected / not detected) and non-detection failure points. TLC checks the "
+        "inside / boundary / outside partition and scale monotonicity for every point of a 13x13x5 block against every box of the slice and "
+        "evaluates sampled frames; every state is replayed through crop_pointcloud, DynamicObject.crop_pointcloud, get_inside_pointcloud_num, "
+        "SensingFrameResult.evaluate_frame and SensingEvaluationManager.add_frame_result, comparing index sets modulo boundary points; random "
+        "float boxes with clouds up to 5000 points are validated as traces.",
+        note="points exactly on a vertical face / polygon edge are boundary (nothing demanded); frame objects sit at integer distances so the "
+        "distance-dependent scale is rational",
+        design="DESIGN.md 5 (C12)",
+        technique="TLA+ spec + TLC; spec->code replay of every state; code->spec trace validation",
+    ),
     "C14": dict(
         engine="tla-labels",
         text="LabelConv.tla holds the documented name tables (pinned from docs/en/perception/label.md) and the conversion laws. TLC checks the pinned "
